@@ -296,6 +296,15 @@ def conversation():
     parts.append(pkt(0, b"\x1c" + struct.pack("<II", 0, 2)))
     parts.append(pkt(0, b"\x02db2"))
     parts.append(pkt(0, b"\x03select c from t"))
+    # commands without a response right behind commands with one: what was answered before them must be on the wire
+    # whether or not they arrived in the same read
+    parts.append(pkt(0, b"\x0e"))
+    parts.append(pkt(0, b"\x18" + struct.pack("<IH", 0, 0) + b"chunk"))      # COM_STMT_SEND_LONG_DATA
+    parts.append(pkt(0, b"\x0e"))
+    parts.append(pkt(0, b"\x19" + struct.pack("<I", 0)))                      # COM_STMT_CLOSE
+    parts.append(pkt(0, b"\x03select d from t"))
+    parts.append(pkt(0, b"\x0e"))
+    parts.append(pkt(0, b"\x01"))                                            # COM_QUIT
     return b"".join(parts)
 
 
